@@ -37,6 +37,10 @@ class Ctx:
                     st.assume(z3.Implies(z3.UGT(y.elen[i], k), z3.Not(y.ekey[i][j].eq(y.ekey[i][k]))))
         if not s.vm.solver.check(st.pc, want_model=False)[0]:
             raise Inconclusive("Inv is unsatisfiable for N=%d cap=%d (vacuous)" % (N, cap))
+        s.buf_owner = {}
+        for i in range(cap):
+            for bb in getattr(y.data[i], 'bufs', []):
+                s.buf_owner[bb] = i
         # ghost state of C01: linked is an equivalence on ids, bound a set
         s.linked = [[z3.Bool('lnk_%d_%d' % (min(i, j), max(i, j))) if i != j else z3.BoolVal(True) for j in range(cap)] for i in range(cap)]
         s.bound = [z3.Bool('bound_%d' % i) for i in range(cap)]
@@ -51,17 +55,26 @@ class Ctx:
             for j in range(i + 1, cap):
                 gh.append(z3.Implies(z3.And(y.tag[i] == y.tag[j], z3.UGE(y.tag[i], 2)), s.linked[i][j]))
         s.ghost = gh
-        env.account(s.w)
+        for gcon in gh:
+            st.assume(gcon)
+        env.account(s.w, count=False)
 
     # ------------------------------------------------------------ variables
-    def vid(s, name, in_range=True):
-        """a vertex id argument: below the capacity (narrow variable) or any 64-bit value"""
+    def vid(s, name, in_range=True, fixed=None):
+        """a vertex id argument: a given constant (case split by the caller), below the capacity
+        (narrow variable) or any 64-bit value"""
+        if fixed is not None:
+            return U(fixed), z3.BoolVal(True)
         if in_range:
             b = bits_for(s.cap)
             v = z3.ZeroExt(64 - b, z3.BitVec(name, b))
             return v, z3.ULT(v, s.cap)
         v = z3.BitVec(name, 64)
         return v, z3.BoolVal(True)
+
+    @staticmethod
+    def arg(v):
+        return v.as_long() if z3.is_bv_value(v) else v
 
     def T(s, st=None):
         st = st or s.pre
@@ -101,7 +114,10 @@ class Ctx:
             R[('tag', i)] = (w.a_tag(i), 8)
             R[('pers', i)] = (w.a_pers(i), 1)
             R[('data', i)] = (w.a_data(i), w.sz_hex)
-            R[('edges', i)] = (base + w.o_edges, w.sz_edges)
+            R[('elen', i)] = (w.a_elen(i), 8)
+            for j in range(s.N):
+                R[('ekey', i, j)] = (w.a_ekey(i, j), w.sz_label)
+                R[('eval', i, j)] = (w.a_eval(i, j), 8)
         for b in range(NSLOT):
             R[('cnt', b)] = (w.a_cnt(b), 8)
             R[('items', b)] = (w.a_item(b, 0), NSLOT * w.k_istride)
@@ -124,9 +140,12 @@ class Ctx:
         (may change), False/None (must not), or a z3 Bool guard under which it may change.
         Returns (formula, number of cells that differ syntactically)."""
         pre = s.pre
-        conj = []
+        conj = {}
         ndiff = 0
         seen = set()
+
+        def add(key, f):
+            conj.setdefault(key if len(key) < 3 else key[:2], []).append(f)
         for pg, a0 in pre.mem.pages.items():
             if a0.base in seen:
                 continue
@@ -144,7 +163,7 @@ class Ctx:
                 g = allowed(('free', a0.base))
                 if g is True:
                     continue
-                conj.append(z3.BoolVal(False) if (g is False or g is None) else g)
+                add(('free', a0.name or hex(a0.base)), z3.BoolVal(False) if (g is False or g is None) else g)
                 continue
             c0 = a0.cells
             c1 = a1.cells
@@ -158,6 +177,8 @@ class Ctx:
                     continue
                 ndiff += 1
                 key = s.region_of(a0.base + off)
+                if key[0] == 'other':
+                    key = ('other', '%s+%d' % (a0.name or hex(a0.base), off))
                 g = allowed(key)
                 if g is True:
                     continue
@@ -165,8 +186,8 @@ class Ctx:
                     eq = z3.BoolVal(False)
                 else:
                     eq = cell_term(x) == cell_term(y)
-                conj.append(eq if (g is False or g is None) else z3.Or(g, eq))
-        return (z3.And(*conj) if conj else z3.BoolVal(True)), ndiff
+                add(key, eq if (g is False or g is None) else z3.Or(g, eq))
+        return [('frame:%s' % '.'.join(str(k) for k in key), z3.And(*fs)) for key, fs in sorted(conj.items(), key=lambda kv: str(kv[0]))], ndiff
 
     # ------------------------------------------------------------ verdicts
     def refute(s, st, clauses, call, props_of, extra_calls=()):
@@ -251,8 +272,7 @@ PROPS = {
     'add-present-unchanged': ('C04',),
     'add-absent-blank': ('C04', 'C03'),
     'add-frame': ('C04',),
-    'frame': ('C03',),
-    'frame-groups': ('C02', 'C01'),
+    'frame': ('C03', 'C02', 'C01'),
     'result': ('C03',),
     'persistence': ('C03', 'C02'),
     'edges': ('C03',),
@@ -273,14 +293,14 @@ def inv_post(c, post):
 
 
 # ====================================================================== add
-def ob_add(env, N, cap):
+def ob_add(env, N, cap, v=None):
     c = Ctx(env, N, cap)
     w, y, vm = c.w, c.y, c.vm
-    v, vr = c.vid('v')
+    v, vr = c.vid('v', fixed=v)
     st = c.pre.fork()
     st.assume(vr)
     call = {'op': 'add', 'v': v}
-    outs = vm.run(st, w.pfx + 'add', [w.g, v])
+    outs = vm.run(st, w.pfx + 'add', [w.g, c.arg(v)])
     T = c.T(); P = c.P(); E = c.E()
     for o in outs:
         if o.kind != 'ret':
@@ -294,18 +314,18 @@ def ob_add(env, N, cap):
         cl.append(('add-absent-blank', z3.And(*[z3.Implies(fresh[i], z3.And(T1[i] == 1, E1[i] == 0, P1[i] == EMPTY)) for i in range(cap)])))
         # everything else is untouched: a vertex slot may change only if it is the fresh one
         def allowed(key):
-            if key[0] in ('tag', 'pers', 'data', 'edges'):
+            if key[0] in ('tag', 'pers', 'data', 'elen', 'ekey', 'eval'):
                 return fresh[key[1]]
             if key[0] == 'free':
                 return z3.Or(*fresh)       # the stale heap datum of the re-used slot may be dropped
             return False
         fr, nd = c.frame(post, allowed)
         cl.append(('add-present-unchanged', z3.And(*[z3.Implies(z3.Not(fresh[i]), z3.And(T1[i] == T[i], P1[i] == P[i], E1[i] == E[i])) for i in range(cap)])))
-        cl.append(('add-frame', fr))
+        cl += [('add-' + n, f) for n, f in fr]
         cl += inv_post(c, post)
         c.refute(post, cl, call, props_of)
-        env.cover('add on a present grouped vertex', vm.feasible(post, z3.And(*[z3.Implies(v == i, z3.UGE(T[i], 2)) for i in range(cap)])))
-        env.cover('add on a dirty absent slot', vm.feasible(post, z3.Or(*[z3.And(fresh[i], E[i] != 0, P[i] != 0) for i in range(cap)])))
+        env.cover('add on a present grouped vertex', lambda: vm.feasible(post, z3.And(*[z3.Implies(v == i, z3.UGE(T[i], 2)) for i in range(cap)])))
+        env.cover('add on a dirty absent slot', lambda: vm.feasible(post, z3.Or(*[z3.And(fresh[i], E[i] != 0, P[i] != 0) for i in range(cap)])))
     env.sample({'op': 'add(v)', 'N': N, 'cap': cap, 'paths': len(outs), 'outcomes': sorted({o.kind for o in outs})})
     env.account(w)
 
@@ -333,10 +353,9 @@ def ob_next_id(env, N, cap):
         cl = [('fresh', z3.And(z3.ULT(r, cap), c.at(T, r) == 0, z3.UGE(r, pos))),
               ('pos', z3.And(z3.UGT(pos1, r), z3.UGE(pos1, pos), z3.ULE(pos1, cap)))]
         fr, nd = c.frame(post, lambda key: key[0] == 'pos')
-        cl.append(('frame', fr))
-        cl.append(('frame-groups', fr))
+        cl += fr
         c.refute(post, cl, call, props_of)
-        env.cover('next_id skips a present id', vm.feasible(post, z3.UGT(r, pos)))
+        env.cover('next_id skips a present id', lambda: vm.feasible(post, z3.UGT(r, pos)))
     # without it the only outcome is a panic (no id invented)
     s2 = st.fork()
     s2.assume(z3.Not(pre_ok))
@@ -350,4 +369,282 @@ def ob_next_id(env, N, cap):
             c.terminal_violation(o, call, ('C07',), 'returns')
     env.sample({'op': 'next_id()', 'N': N, 'cap': cap, 'paths': len(outs) + len(outs2),
                 'outcomes': sorted({o.kind for o in outs + outs2})})
+    env.account(w)
+
+
+# ====================================================================== helpers
+def decode_hex(c, st, addr):
+    """the byte string held by the Hex at addr, by running the real Hex::bytes on it:
+    list of (condition, length term, [byte terms]) -- one entry per representation"""
+    w, vm = c.w, c.vm
+    pp = w.scratch(st, 8, 'scratch.pp')
+    outs = vm.run(st, '@hex_view', [addr, pp])
+    res = []
+    for o in outs:
+        if o.kind != 'ret':
+            raise Inconclusive("hex_view ended in %r" % (o,))
+        cond = z3.And(*o.st.pc[len(st.pc):]) if len(o.st.pc) > len(st.pc) else z3.BoolVal(True)
+        n = to_bv(o.value, 64)
+        ptr = w.rd(o.st, pp, 8)
+        nmax = 8 if not vm.feasible(o.st, z3.UGT(n, 8)) else max(w.heap_lens)
+        bs = []
+        for k in range(nmax):
+            try:
+                cells = vm.load_bytes(o.st, ptr + k if not isinstance(ptr, int) else ptr + k, 1)
+                bs.append(cell_term(cells[0]) if cells[0] is not None else None)
+            except Terminal:
+                bs.append(None)
+        res.append((cond, n, bs))
+    return res
+
+
+def hex_equals(dec, hx):
+    """formula: the decoded byte string equals the abstract SymHex hx"""
+    cs = []
+    for cond, n, bs in dec:
+        eq = [n == hx.length()]
+        for k, b in enumerate(bs):
+            if b is None:
+                eq.append(z3.ULE(n, k))
+            else:
+                eq.append(z3.Implies(z3.UGT(n, k), b == hx.byte(k)))
+        eq.append(z3.ULE(n, len(bs)))
+        cs.append(z3.Implies(cond, z3.And(*eq)))
+    return z3.And(*cs)
+
+
+def label_cells_eq(c, cells, img):
+    """cells hold the same label image as img (cellwise; both fully initialised images)"""
+    cs = []
+    for x, y in zip(cells, img):
+        e = cell_eq(x, y)
+        if e:
+            continue
+        if x is None or y is None:
+            if x is None and y is None:
+                continue
+            return z3.BoolVal(False)
+        cs.append(cell_term(x) == cell_term(y))
+    return z3.And(*cs) if cs else z3.BoolVal(True)
+
+
+# ====================================================================== put
+def ob_put(env, N, cap, v=None):
+    c = Ctx(env, N, cap)
+    w, y, vm = c.w, c.y, c.vm
+    v, vr = c.vid('v', fixed=v)
+    st = c.pre.fork()
+    d = SymHex('arg')
+    st.assume(d.wf())
+    st, da = w.make_hex(st, d)
+    st.mem.lookup(da).name = 'arg.d'
+    st.assume(vr)
+    T = c.T(); P = c.P(); E = c.E(); CTR = c.CTR()
+    st.assume(c.at(T, v) != 0)
+    c.pre = st            # the frame is taken against the state that already holds the argument
+    call = {'op': 'put', 'v': v, 'd': d}
+    outs = vm.run(st, w.pfx + 'put', [w.g, c.arg(v), da])
+    b = c.at(T, v)
+    for o in outs:
+        if o.kind != 'ret':
+            c.terminal_violation(o, call, PROPS['returns'], 'returns')
+            continue
+        post = o.st
+        T1 = c.T(post); P1 = c.P(post)
+        cl = [('no-removal', z3.And(*[T1[i] == T[i] for i in range(cap)])),
+              ('persistence', z3.And(*[P1[i] == z3.If(v == i, U(STORED, 8), P[i]) for i in range(cap)]))]
+
+        def allowed(key):
+            k = key[0]
+            if k in ('data', 'pers'):
+                return v == key[1]
+            if k == 'ctr':
+                return True if key[1] < 2 else (b == key[1])
+            if k == 'free':
+                i = c.buf_owner.get(key[1])
+                return False if i is None else (v == i)
+            return False
+        fr, nd = c.frame(post, allowed)
+        cl += fr
+        # the datum now held by v is the argument, byte for byte (decoded by the real Hex::bytes)
+        res = []
+        for i in range(cap):
+            if not vm.feasible(post, v == i):
+                continue
+            s_i = post.fork()
+            s_i.assume(v == i)
+            dec = decode_hex(c, s_i, w.a_data(i))
+            res.append(z3.Implies(v == i, hex_equals(dec, d)))
+        cl.append(('result', z3.And(*res)))
+        # the argument itself is untouched
+        cl += inv_post(c, post)
+        c.refute(post, cl, call, props_of)
+        env.cover('put overwrites an unread datum', lambda: vm.feasible(post, c.at(P, v, 8) == STORED))
+        env.cover('put on a grouped vertex', lambda: vm.feasible(post, z3.UGE(b, 2)))
+        env.cover('put of a heap datum', lambda: vm.feasible(post, d.sel != 0))
+    env.sample({'op': 'put(v,d)', 'N': N, 'cap': cap, 'paths': len(outs), 'outcomes': sorted({o.kind for o in outs})})
+    env.account(w)
+
+
+# ====================================================================== data
+def ob_data(env, N, cap, v=None):
+    c = Ctx(env, N, cap)
+    w, y, vm = c.w, c.y, c.vm
+    v, vr = c.vid('v', fixed=v)
+    st = c.pre.fork()
+    out = w.scratch(st, w.sz_hex, 'out')
+    st.assume(vr)
+    T = c.T(); P = c.P(); CNT = c.CNT(); CTR = c.CTR()
+    b = c.at(T, v)
+    pv = c.at(P, v, 8)
+    st.assume(b != 0)
+    c.pre = st
+    call = {'op': 'data', 'v': v}
+    outs = vm.run(st, w.pfx + 'data', [w.g, c.arg(v), out])
+    others_unread = z3.Or(*[z3.And(v != u, T[u] == b, P[u] == STORED) for u in range(cap)])
+    last = z3.And(pv == STORED, z3.UGE(b, 2), z3.Not(others_unread))
+    for o in outs:
+        if o.kind != 'ret':
+            c.terminal_violation(o, call, PROPS['returns'], 'returns')
+            continue
+        post = o.st
+        T1 = c.T(post); P1 = c.P(post); CNT1 = c.CNT(post); CTR1 = c.CTR(post)
+        some = o.value
+        some_b = (to_bv(some, 8) & 1) == 1 if not isinstance(some, z3.BoolRef) else some
+        cl = [('result:none-iff-empty', some_b == (pv != EMPTY))]
+        if vm.feasible(post, some_b):
+            s2 = post.fork()
+            s2.assume(some_b)
+            dec = decode_hex(c, s2, out)
+            cl.append(('result:bytes', z3.Implies(some_b, z3.And(*[z3.Implies(v == i, hex_equals(dec, y.data[i])) for i in range(cap)]))))
+        cl.append(('persistence', z3.And(*[P1[i] == z3.If(z3.And(v == i, P[i] == STORED), U(TAKEN, 8), P[i]) for i in range(cap)])))
+        cl.append(('exact', z3.And(*[T1[i] == z3.If(z3.And(last, T[i] == b), U(0), T[i]) for i in range(cap)])))
+        cl.append(('removal-safe', z3.And(*[
+            z3.Implies(z3.And(T[i] != 0, T1[i] == 0),
+                       z3.And(T[i] == b, z3.UGE(b, 2), pv == STORED, P1[i] != STORED, c.bound[i],
+                              z3.Or(*[z3.And(v == k, c.linked[i][k]) for k in range(cap)])))
+            for i in range(cap)])))
+        cl.append(('slot-released', z3.Implies(last, z3.And(c.at(CNT1, b) == 0, c.at(CTR1, b) == 0))))
+
+        def allowed(key):
+            k = key[0]
+            if k == 'tag':
+                return z3.And(last, T[key[1]] == b)
+            if k == 'pers':
+                return v == key[1]
+            if k in ('cnt', 'ctr'):
+                if key[1] < 2:
+                    return True if k == 'ctr' else False
+                return b == key[1]
+            return False
+        fr, nd = c.frame(post, allowed)
+        cl += fr
+        cl += inv_post(c, post)
+        c.refute(post, cl, call, props_of)
+        env.cover('data collects a group of two or more', lambda: vm.feasible(post, z3.And(last, z3.UGE(c.at(CNT, b), 2))))
+        env.cover('data decrements without collecting', lambda: vm.feasible(post, z3.And(pv == STORED, z3.UGE(b, 2), others_unread)))
+        env.cover('data on an ungrouped vertex with unread datum', lambda: vm.feasible(post, z3.And(pv == STORED, b == 1)))
+        env.cover('data read again', lambda: vm.feasible(post, pv == TAKEN))
+        env.cover('data of a heap datum', lambda: vm.feasible(post, z3.And(some_b, z3.Or(*[z3.And(v == i, y.data[i].sel != 0) for i in range(cap)]))))
+    env.sample({'op': 'data(v)', 'N': N, 'cap': cap, 'paths': len(outs), 'outcomes': sorted({o.kind for o in outs})})
+    env.account(w)
+
+
+# ====================================================================== bind
+def ob_bind(env, N, cap, v1=None, v2=None):
+    c = Ctx(env, N, cap)
+    w, y, vm = c.w, c.y, c.vm
+    v1, r1 = c.vid('v1', fixed=v1)
+    v2, r2 = c.vid('v2', fixed=v2)
+    st = c.pre.fork()
+    a = SymLabel('arg')
+    st.assume(a.wf())
+    st, la = w.make_label(st, a)
+    st.mem.lookup(la).name = 'arg.a'
+    aimg = st.mem.read_cells(la, w.sz_label)
+    st.assume(r1); st.assume(r2); st.assume(v1 != v2)
+    T = c.T(); P = c.P(); E = c.E(); CNT = c.CNT(); CTR = c.CTR()
+    b1 = c.at(T, v1); b2 = c.at(T, v2)
+    st.assume(b1 != 0); st.assume(b2 != 0)
+    # within the limits
+    hit = [[z3.And(z3.UGT(E[i], j), y.ekey[i][j].eq(a)) for j in range(N)] for i in range(cap)]
+    anyhit = [z3.Or(*hit[i]) for i in range(cap)]
+    new = [z3.Not(anyhit[i]) for i in range(cap)]
+    st.assume(z3.And(*[z3.Implies(z3.And(v1 == i, new[i]), z3.ULT(E[i], N)) for i in range(cap)]))
+    empty_slot = z3.Or(*[CNT[b] == 0 for b in range(2, NSLOT)])
+    st.assume(z3.Implies(z3.And(b1 == 1, b2 == 1), empty_slot))
+    st.assume(z3.Implies(z3.And(b1 == 1, z3.UGE(b2, 2)), z3.ULT(c.at(CNT, b2), NSLOT)))
+    st.assume(z3.Implies(z3.And(z3.UGE(b1, 2), b2 == 1), z3.ULT(c.at(CNT, b1), NSLOT)))
+    c.pre = st
+    call = {'op': 'bind', 'v1': v1, 'v2': v2, 'a': a}
+    outs = vm.run(st, w.pfx + 'bind', [w.g, c.arg(v1), c.arg(v2), la])
+    both1 = z3.And(b1 == 1, b2 == 1)
+    j12 = z3.And(b1 == 1, z3.UGE(b2, 2))
+    j21 = z3.And(z3.UGE(b1, 2), b2 == 1)
+    for o in outs:
+        if o.kind != 'ret':
+            c.terminal_violation(o, call, PROPS['returns'], 'returns')
+            continue
+        post = o.st
+        T1 = c.T(post); P1 = c.P(post); E1 = c.E(post); CNT1 = c.CNT(post)
+        n1 = c.at(T1, v1); n2 = c.at(T1, v2)
+        cl = []
+        cl.append(('no-removal', z3.And(*[z3.Implies(T[i] != 0, T1[i] != 0) for i in range(cap)])))
+        cl.append(('groups:others', z3.And(*[z3.Implies(z3.And(v1 != i, v2 != i), T1[i] == T[i]) for i in range(cap)])))
+        cl.append(('groups:form', z3.Implies(both1, z3.And(n1 == n2, z3.UGE(n1, 2), c.at(CNT, n1) == 0))))
+        cl.append(('slot-formed', z3.Implies(both1, z3.And(n1 == n2, z3.UGE(n1, 2), c.at(CNT, n1) == 0, c.at(CNT1, n1) == 2))))
+        cl.append(('groups:join', z3.And(z3.Implies(j12, z3.And(n1 == b2, n2 == b2)), z3.Implies(j21, z3.And(n1 == b1, n2 == b1)))))
+        cl.append(('groups:none', z3.Implies(z3.And(z3.UGE(b1, 2), z3.UGE(b2, 2)), z3.And(n1 == b1, n2 == b2))))
+        # ghost: bind unions the two classes; I8 must hold again
+        def lk(i, vx):
+            return z3.Or(*[z3.And(vx == k, c.linked[i][k]) for k in range(cap)])
+        gh = []
+        for i in range(cap):
+            gh.append(z3.Implies(z3.UGE(T1[i], 2), z3.Or(c.bound[i], v1 == i, v2 == i)))
+            for j in range(i + 1, cap):
+                l2 = z3.Or(c.linked[i][j], z3.And(lk(i, v1), lk(j, v2)), z3.And(lk(i, v2), lk(j, v1)))
+                gh.append(z3.Implies(z3.And(T1[i] == T1[j], z3.UGE(T1[i], 2)), l2))
+        cl.append(('ghost', z3.And(*gh)))
+        # edges of v1
+        ecl = []
+        for i in range(cap):
+            g = v1 == i
+            ecl.append(z3.Implies(g, E1[i] == z3.If(new[i], E[i] + 1, E[i])))
+            for j in range(N):
+                tj = to_bv(w.etgt(post, i, j), 64)
+                kj = w.ekey_cells(post, i, j)
+                ecl.append(z3.Implies(z3.And(g, hit[i][j]), tj == v2))
+                ecl.append(z3.Implies(z3.And(g, new[i], E[i] == j), z3.And(tj == v2, label_cells_eq(c, kj, aimg))))
+            ecl.append(z3.Implies(z3.Not(g), E1[i] == E[i]))
+        cl.append(('edges', z3.And(*ecl)))
+
+        def allowed(key):
+            k = key[0]
+            if k == 'tag':
+                return z3.Or(v1 == key[1], v2 == key[1])
+            if k in ('cnt', 'items', 'ctr'):
+                if key[1] < 2:
+                    return True if k == 'ctr' else False
+                return z3.Or(n1 == key[1], n2 == key[1])
+            if k == 'elen':
+                return z3.And(v1 == key[1], new[key[1]])
+            if k == 'eval':
+                i, j = key[1], key[2]
+                return z3.And(v1 == i, z3.Or(hit[i][j], z3.And(new[i], E[i] == j)))
+            if k == 'ekey':
+                i, j = key[1], key[2]
+                return z3.And(v1 == i, new[i], E[i] == j)
+            return False
+        fr, nd = c.frame(post, allowed)
+        cl += fr
+        cl += inv_post(c, post)
+        c.refute(post, cl, call, props_of)
+        env.cover('bind forms a group', lambda: vm.feasible(post, both1))
+        env.cover('bind forms a group while another group is alive', lambda: vm.feasible(post, z3.And(both1, z3.Or(*[CNT[b] != 0 for b in range(2, NSLOT)]))))
+        env.cover('bind joins (ungrouped source)', lambda: vm.feasible(post, j12))
+        env.cover('bind joins (ungrouped target)', lambda: vm.feasible(post, j21))
+        env.cover('bind of two grouped vertices', lambda: vm.feasible(post, z3.And(z3.UGE(b1, 2), z3.UGE(b2, 2))))
+        env.cover('bind replaces an existing label', lambda: vm.feasible(post, z3.Or(*[z3.And(v1 == i, anyhit[i]) for i in range(cap)])))
+        env.cover('bind of a vertex holding an unread datum', lambda: vm.feasible(post, z3.And(b1 == 1, c.at(P, v1, 8) == STORED)))
+    env.sample({'op': 'bind(v1,v2,a)', 'N': N, 'cap': cap, 'paths': len(outs), 'outcomes': sorted({o.kind for o in outs})})
     env.account(w)
